@@ -56,6 +56,9 @@ func normMsg(s string) string {
 	// names of generated things
 	s = regexp.MustCompile(`gen\.[a-z]\.v[0-9](\.sub)?\.[A-Za-z0-9_.]+`).ReplaceAllString(s, "<name>")
 	s = regexp.MustCompile(`gen\.[a-z]\.v[0-9](\.sub)?`).ReplaceAllString(s, "<pkg>")
+	if i := strings.Index(s, "values of type google.protobuf.Duration are not supported"); i >= 0 {
+		return "values of type google.protobuf.Duration are not supported"
+	}
 	s = regexp.MustCompile(`field [A-Za-z0-9_.]+: `).ReplaceAllString(s, "field <path>: ")
 	s = regexp.MustCompile(`field [A-Za-z0-9_]+ is already set`).ReplaceAllString(s, "field <name> is already set")
 	s = reNum.ReplaceAllString(s, "N")
@@ -96,6 +99,8 @@ func splitCollision(files *protoregistry.Files) bool {
 	return hit
 }
 
+const sigOwnDup = "C18 reflected object / oneof has two properties with one name (JSON name of an exposed oneof equals the JSON name of a field)"
+
 var reConfusion = regexp.MustCompile(`interface conversion|refers to \*|fresh panic|fresh err, shared ok|fresh ok, shared|newPropSet: field|path-resolves`)
 
 type c18case struct {
@@ -130,7 +135,35 @@ func runC18(cfg *vh.Config) error {
 			prof.Wild = 25
 		}
 		prof.Comments = r.Chance(25)
+		prof.Collide = len(cases) == 1 || len(cases) == 2 || len(cases) == 12
+		prof.Clash = len(cases) == 4 || len(cases) == 14
+		switch len(cases) {
+		case 6:
+			prof.FlatCycle = 2
+		case 16:
+			prof.FlatCycle = 3
+		case 26:
+			prof.FlatCycle = -2
+		case 36:
+			prof.FlatCycle = 1
+		case 8:
+			prof.FlatDeep = 3
+		case 18:
+			prof.FlatDeep = 4
+		case 28:
+			prof.FlatDeep = 5
+		}
 		c := descgen.Generate(r.Fork(fmt.Sprintf("case%d-%d", len(cases), invalid)), prof, deps)
+		if len(cases)%10 == 3 {
+			// a valid j5s package compiled by the real compiler (the C02 generator)
+			jc, jerr := descgen.GenerateJ5S(r.Fork(fmt.Sprintf("j5s-%d-%d", len(cases), invalid)))
+			if jerr != nil {
+				invalid++
+				res.Count("j5s-package-not-compiled")
+				continue
+			}
+			c = jc
+		}
 		files, b, lerr := descgen.Link(c.Set())
 		if lerr != nil {
 			invalid++
@@ -216,19 +249,9 @@ func runC18(cfg *vh.Config) error {
 				}
 				in["step"] = o.Step
 				if collides && reConfusion.MatchString(sig+" "+got) {
-					// one signature per stage for the name-collision class
-					stage := "schema refers to a schema of another kind"
-					switch {
-					case strings.Contains(sig, "codec") && strings.Contains(sig, "panic"):
-						stage = "codec panics on the type assertion of Ref.To"
-					case strings.Contains(sig, "codec"):
-						stage = "codec builds the property set of the other descriptor's schema"
-					case strings.Contains(sig, "-> panic"):
-						stage = "reader panics on ref.To.(*EnumSchema)"
-					case strings.Contains(sig, "earlier failed builds"):
-						stage = "answer differs between a fresh and a shared cache"
-					}
-					sig = "C18 two descriptors with the same split name (package, names joined by _) -> " + stage
+					// one signature for the name-collision class; the stage stays in Got
+					got = sig + " | " + got
+					sig = "C18 two descriptors with the same split name (package, names joined by _) -> type confusion (reader panic / schema of another kind / codec failure / order-dependent answer)"
 				}
 				res.Fail(vh.Failure{Case: c.id, Stream: kind, Sig: sig, Clause: clause, Input: in, Got: got})
 			}
@@ -244,6 +267,10 @@ func runC18(cfg *vh.Config) error {
 				}
 				for _, v := range o.Viol {
 					clause, _, _ := strings.Cut(v, ":")
+					if clause == "names-unique" {
+						fail(sigOwnDup, "property names are unique within each object", v)
+						continue
+					}
 					fail("C18 SchemaSetFromFiles ok but "+clause+": "+normMsg(v), "on success every property's proto field path resolves to a field of the matching kind and names are unique", v)
 				}
 				set := "[]"
@@ -258,6 +285,10 @@ func runC18(cfg *vh.Config) error {
 				}
 				for _, v := range o.Viol {
 					clause, _, _ := strings.Cut(v, ":")
+					if clause == "names-unique" {
+						fail(sigOwnDup, "property names are unique within each object", v)
+						continue
+					}
 					fail("C18 SchemaCache.Schema ok but "+clause+": "+normMsg(v), "on success every property's proto field path resolves to a field of the matching kind and names are unique", v)
 				}
 				root := "None"
@@ -269,15 +300,23 @@ func runC18(cfg *vh.Config) error {
 				if bad {
 					fail(fmt.Sprintf("C18 ClientProperties of a reflected object -> %s in %s: %s", o.Class, o.Site, normMsg(o.Msg)), "never panics or recurses forever, including on self- and mutually-recursive messages", o.Msg)
 				}
+				ownDup := len(o.Sub) == 3 && o.Sub[2] == "own-dup"
 				for _, v := range o.Viol {
 					clause, _, _ := strings.Cut(v, ":")
+					if clause == "names-unique" && ownDup {
+						continue // reported for the object itself (msg / set steps)
+					}
 					fail("C18 client properties "+clause+": "+normMsg(v), "on success every property's proto field path resolves to a field of the matching kind and names are unique", v)
 				}
 				dup, unres := false, false
-				if len(o.Sub) == 2 {
+				if len(o.Sub) >= 2 {
 					dup, unres = o.Sub[0] == "dup", o.Sub[1] == "unresolved"
 				}
-				terms = append(terms, fmt.Sprintf("OClient %s %d %v %v", descgen.Str(arg), classN[o.Class], dup, unres))
+				paths := o.Term
+				if paths == "" {
+					paths = "[]"
+				}
+				terms = append(terms, fmt.Sprintf("OClient %s %d %v %v %s", descgen.Str(arg), classN[o.Class], dup, unres, paths))
 			case "newroot":
 				if bad {
 					fail(fmt.Sprintf("C18 Reflector.NewRoot -> %s in %s: %s", o.Class, o.Site, normMsg(o.Msg)), "never panics", o.Msg)
